@@ -123,6 +123,27 @@ pub struct Case {
     /// warning (the policy stays non-permissive for everything C07 names)
     #[serde(default)]
     pub filtered: bool,
+    /// the request travels as the protocol message (SignMutualCloseTx2, or SignMutualCloseTx with
+    /// the wallet paths as BIP-32 derivations on the PSBT outputs) through the channel handler
+    #[serde(default)]
+    pub wire: bool,
+}
+
+fn wire_close_sig(o: Outcome<vls_protocol::msgs::Message>) -> Outcome<lightning_signer::bitcoin::secp256k1::ecdsa::Signature> {
+    match o {
+        Outcome::Ok(vls_protocol::msgs::Message::SignTxReply(r)) =>
+            if r.signature.sighash != EcdsaSighashType::All as u8 {
+                Outcome::Err(format!("wire-reply-sighash-type:{}", r.signature.sighash))
+            } else {
+                match sig_from_wire(&r.signature) {
+                    Some(s) => Outcome::Ok(s),
+                    None => Outcome::Err("wire-reply-signature-unparsable".into()),
+                }
+            },
+        Outcome::Ok(_) => Outcome::Err("wire-reply-of-another-type".into()),
+        Outcome::Err(e) => Outcome::Err(e),
+        Outcome::Panic(p) => Outcome::Panic(p),
+    }
 }
 
 fn pol(filtered: bool) -> lightning_signer::policy::simple_validator::SimplePolicy {
@@ -369,7 +390,22 @@ fn run_case(case: &Case) -> Res {
     let o = if !case.phase1 {
         let (hs, cs, pth) = (b.holder_script.clone(), b.cp_script.clone(), b.path.clone());
         let (th, tc) = (b.to_holder, b.to_cp);
-        ch.w.with_chan(DBID, move |c| c.sign_mutual_close_tx_phase2(th, tc, &hs, &cs, &pth))
+        if case.wire {
+            use vls_protocol::serde_bolt::{ArrayBE, Octets};
+            let hint: Vec<u32> = pth.into_iter().map(|c| u32::from(*c)).collect();
+            wire_close_sig(ch.w.chan_msg(
+                DBID,
+                vls_protocol::msgs::Message::SignMutualCloseTx2(vls_protocol::msgs::SignMutualCloseTx2 {
+                    to_local_value_sat: th,
+                    to_remote_value_sat: tc,
+                    local_script: Octets(hs.map(|s| s.to_bytes()).unwrap_or_default()),
+                    remote_script: Octets(cs.map(|s| s.to_bytes()).unwrap_or_default()),
+                    local_wallet_path_hint: ArrayBE(hint),
+                }),
+            ))
+        } else {
+            ch.w.with_chan(DBID, move |c| c.sign_mutual_close_tx_phase2(th, tc, &hs, &cs, &pth))
+        }
     } else {
         // raw transaction with one derivation path per output
         let mut tx = canon.clone();
@@ -417,7 +453,26 @@ fn run_case(case: &Case) -> Res {
             return r;
         }
         let tx2 = tx.clone();
-        let out = ch.w.with_chan(DBID, move |c| c.sign_mutual_close_tx(&tx2, &paths));
+        let out = if case.wire {
+            use vls_protocol::serde_bolt::WithSize;
+            let mut psbt = lightning_signer::bitcoin::psbt::Psbt::from_unsigned_tx(tx.clone()).expect("psbt");
+            let dummy = lightning_signer::bitcoin::secp256k1::PublicKey::from_secret_key(&secp(), &sk(97));
+            for (i, o) in psbt.outputs.iter_mut().enumerate() {
+                if !paths[i].is_empty() {
+                    o.bip32_derivation.insert(dummy, (lightning_signer::bitcoin::bip32::Fingerprint::default(), paths[i].clone()));
+                }
+            }
+            wire_close_sig(ch.w.chan_msg(
+                DBID,
+                vls_protocol::msgs::Message::SignMutualCloseTx(vls_protocol::msgs::SignMutualCloseTx {
+                    tx: WithSize(tx2),
+                    psbt: WithSize(vls_protocol::psbt::PsbtWrapper { inner: psbt }),
+                    remote_funding_key: vls_protocol::model::PubKey(ch.cp.pubkeys().funding_pubkey.serialize()),
+                }),
+            ))
+        } else {
+            ch.w.with_chan(DBID, move |c| c.sign_mutual_close_tx(&tx2, &paths))
+        };
         // raw-entry clause: acceptance requires the submitted bytes to be a canonical closing
         // transaction spending the funding outpoint
         if out.is_ok() {
@@ -623,14 +678,18 @@ fn all_cases(tier: Tier) -> (Vec<Case>, Vec<Case>) {
                 }
                 for upfront in 0..3u8 {
                     for phase1 in [false, true] {
-                        bases.push(Case { st: *st, outbound, anchors, upfront, phase1, devs: vec![], onchain: false, filtered: false });
+                        bases.push(Case { st: *st, outbound, anchors, upfront, phase1, devs: vec![], onchain: false, filtered: false, wire: false });
+                        // the same as the protocol message through the channel handler
+                        if tier == Tier::Thorough || (!anchors && upfront < 2 && matches!(st, St::Initial | St::Equal | St::Skew(_) | St::HtlcCpOnly) && !matches!(st, St::Skew(x) if *x != EPS as i64 + 1 && *x != EPS as i64)) {
+                            bases.push(Case { st: *st, outbound, anchors, upfront, phase1, devs: vec![], onchain: false, filtered: false, wire: true });
+                        }
                         // the same with the other tag families demoted to warnings
                         if !anchors && (tier == Tier::Thorough || upfront == 0) && matches!(st, St::Equal | St::Skew(_) | St::HtlcCpOnly) {
-                            bases.push(Case { st: *st, outbound, anchors, upfront, phase1, devs: vec![], onchain: false, filtered: true });
+                            bases.push(Case { st: *st, outbound, anchors, upfront, phase1, devs: vec![], onchain: false, filtered: true, wire: false });
                         }
                         // the same under the chain-aware validator (quick: two states, no upfront script)
                         if !anchors && (tier == Tier::Thorough || (upfront == 0 && matches!(st, St::Equal | St::HtlcCpOnly))) {
-                            bases.push(Case { st: *st, outbound, anchors, upfront, phase1, devs: vec![], onchain: true, filtered: false });
+                            bases.push(Case { st: *st, outbound, anchors, upfront, phase1, devs: vec![], onchain: true, filtered: false, wire: false });
                         }
                     }
                 }
@@ -642,7 +701,7 @@ fn all_cases(tier: Tier) -> (Vec<Case>, Vec<Case>) {
     for b in &bases {
         let a = alphabet(b);
         // quick: pairs of deviations for the states whose base close is signable and one type
-        let dd = if tier == Tier::Quick && !b.anchors && matches!(b.st, St::Equal | St::Skew(_)) { 2 } else { d };
+        let dd = if b.wire && tier == Tier::Quick { 1 } else if tier == Tier::Quick && !b.anchors && matches!(b.st, St::Equal | St::Skew(_)) { 2 } else { d };
         for s in dev_sets(a.len(), dd) {
             if s.len() == 2 && dev_kind(&a[s[0]]).chars().take(6).collect::<String>() == dev_kind(&a[s[1]]).chars().take(6).collect::<String>() {
                 continue;
